@@ -67,6 +67,15 @@ pub unsafe fn i_try_send<RW: QueueRW<Pay>>(n: usize, k: usize, mpmc: bool, kind:
 /// count; a speculative read whose commit failed is neither returned nor destroyed; Disconnected
 /// only when no sender is alive and the stream has consumed every accepted value; no pin left.
 pub unsafe fn i_try_recv<RW: QueueRW<Pay>>(n: usize, k: usize, mpmc: bool, budget: usize, shared: bool) {
+    i_try_recv_en::<RW>(n, k, mpmc, budget, shared, (1 << A_CONSUME) | (1 << A_PUBLISH) | (1 << A_SENDER))
+}
+
+/// same, with handle churn on my stream (sibling consumer handles cloned / dropped) and sibling receives
+pub unsafe fn i_try_recv_churn<RW: QueueRW<Pay>>(n: usize, k: usize, mpmc: bool, budget: usize) {
+    i_try_recv_en::<RW>(n, k, mpmc, budget, true, (1 << A_CONSUME) | (1 << A_CONSUMER))
+}
+
+pub unsafe fn i_try_recv_en<RW: QueueRW<Pay>>(n: usize, k: usize, mpmc: bool, budget: usize, shared: bool, en: u32) {
     let w = World::<RW>::arbitrary(n, k, mpmc, false);
     let a0 = w.a;
     let i: usize = rt::oracle_usize();
@@ -76,7 +85,6 @@ pub unsafe fn i_try_recv<RW: QueueRW<Pay>>(n: usize, k: usize, mpmc: bool, budge
         Some(r) => r,
         None => unreachable!(),
     };
-    let en: u32 = (1 << A_CONSUME) | (1 << A_PUBLISH) | (1 << A_SENDER);
     env_reset(&w, mpmc, budget, en);
     env_set_me_reader(i, reader);
     rt::ENV_MODE = ENV_PROTOCOL;
@@ -280,5 +288,67 @@ pub unsafe fn t_try_op<RW: QueueRW<Pay>>(n: usize, k: usize, mpmc: bool, op: u8,
     assert!(rt::ACCESSES <= bound, "C18: a try operation performed more shared-memory steps than its fixed bound");
     assert!(rt::LOCKS_TAKEN == 0 && rt::CONDVAR_WAITS == 0 && rt::YIELDS == 0 && rt::SLEEPS == 0 && HW_WAIT_CALLS == 0, "C18: a try operation reached a blocking primitive (lock, condition variable, yield, sleep or the wait strategy)");
     mem::forget(tx);
+    mem::forget(w);
+}
+
+// ---------------------------------------------------------------------------------------------
+// I12: the consumer count of a stream is moved by single atomic read-modify-writes (C11, C12)
+
+/// Reader::remove_consumer / dup_consumer while a sibling handle of the same stream is dropped at any
+/// point in between: the count changes by exactly one in ONE atomic read-modify-write, and what
+/// remove_consumer reports is the value that very operation replaced -- so that exactly one of two
+/// handles released at the same moment learns it was the last one and retires the stream.
+pub unsafe fn i_consumer_count<RW: QueueRW<Pay>>(n: usize, remove: bool) {
+    let w = World::<RW>::arbitrary(n, 1, false, false);
+    let a0 = w.a;
+    let reader: &Reader = match &w.rd[0] {
+        Some(r) => r,
+        None => unreachable!(),
+    };
+    env_reset(&w, false, 1, 0);
+    env_set_me_reader(0, reader);
+    CC_WRITES = 0;
+    rt::ENV_MODE = 103;
+    let mut ret = 0;
+    if remove {
+        ret = reader.remove_consumer();
+    } else {
+        rt::assume(a0.ncons[0] < 3);
+        reader.dup_consumer();
+    }
+    rt::ENV_MODE = ENV_OFF;
+    assert!(CC_WRITES == 1 && CC_KIND == K_RMW, "C11/C12: the consumer count must be moved by exactly one atomic read-modify-write");
+    if remove {
+        assert!(CC_NEW + 1 == CC_OLD, "C11: remove_consumer lowers the count by exactly one");
+        assert!(ret == CC_OLD, "C11: remove_consumer must report the value its own decrement replaced (otherwise two handles released together can both, or neither, take the last-handle path)");
+    } else {
+        assert!(CC_NEW == CC_OLD + 1, "C12: dup_consumer raises the count by exactly one");
+        assert!(!reader.vf_is_single_state(), "C12: the cloned-from handle leaves sole-consumer mode");
+    }
+    kani_cover!(ENV_TAKEN[2] > 0, "sibling dropped in between");
+    mem::forget(w);
+}
+
+// ---------------------------------------------------------------------------------------------
+// I13: two senders leaving at the same moment (C07, C08)
+
+/// Drop for InnerSend while ANOTHER sender handle is dropped at any point in between: if the queue is
+/// left without senders, this drop (it is then the last one) must have notified the waiter -- otherwise
+/// a receiver parked on the wait strategy never learns that the stream has ended.
+pub unsafe fn i_drop_send_race<RW: QueueRW<Pay>>(n: usize, mpmc: bool) {
+    let w = World::<RW>::arbitrary(n, 1, mpmc, true);
+    let a0 = w.a;
+    rt::assume(a0.writers >= 1);
+    let tx = mk_send(&w, false);
+    env_reset(&w, mpmc, 1, 0);
+    WR_CELL = &w.q.writers as *const AtomicUsize as usize;
+    HW_NOTIFY_CALLS = 0;
+    rt::ENV_MODE = 104;
+    drop(tx);
+    rt::ENV_MODE = ENV_OFF;
+    let left = w.q.writers.peek();
+    assert!(left + 1 + ENV_TAKEN[2] == a0.writers, "C07: each sender handle that goes lowers the count by exactly one");
+    assert!(left > 0 || HW_NOTIFY_CALLS >= 1, "C07/C08: when the last senders leave together, the one that brings the count to zero must notify the waiter");
+    kani_cover!(ENV_TAKEN[2] > 0 && left == 0, "both senders left");
     mem::forget(w);
 }
